@@ -1129,6 +1129,7 @@ func (c *Ctx) pkgoDispatch(si *siteInfo, rule string) {
 	for _, path := range paths {
 		var nodeKind, objKind string
 		aliasResolved := false
+		unresolvedPkgTest := false
 		recvNonNil, recvNilOrCompound := false, false
 		for _, l := range path {
 			if x, t, _ := typeAssertOK(l); x != nil && l.Pos {
@@ -1167,6 +1168,32 @@ func (c *Ctx) pkgoDispatch(si *siteInfo, rule string) {
 					}
 				}
 			}
+			// "declared in another package" is asked of the alias-resolved object: a test on the identifier's own
+			// object treats a local alias of a restricted type as a local type
+			if si.S.Code == "PKGO01" && l.Kind == "eq" && !l.Pos {
+				for _, side := range []ssa.Value{l.X, l.Y} {
+					for _, r := range P.ResolveDeep(side) {
+						// <obj>.Pkg().Path() compared with a path, or <obj>.Pkg() compared with a package
+						cands := []ssa.Value{r}
+						if pc := P.CallTo(r, "(*go/types.Package).Path"); pc != nil {
+							cands = P.ResolveDeep(pc.Call.Args[0])
+						}
+						for _, q := range cands {
+							oc, ok := q.(*ssa.Call)
+							if !ok || !oc.Call.IsInvoke() || oc.Call.Method.Name() != "Pkg" {
+								continue
+							}
+							resolved := P.RootsAnyDeep(oc.Call.Value, func(o ssa.Value) bool {
+								nc := P.CallTo(o, "(*go/types.Named).Obj")
+								return nc != nil && c.throughAsserts(nc.Call.Args[0], 0, func(u ssa.Value) bool { return P.CallTo(u, "go/types.Unalias") != nil })
+							})
+							if !resolved {
+								unresolvedPkgTest = true
+							}
+						}
+					}
+				}
+			}
 			if v := nilCheckedValue(l); v != nil && P.RootsAny(v, func(r ssa.Value) bool { return P.CallTo(r, "(*go/types.Signature).Recv") != nil }) {
 				if !l.Pos {
 					recvNonNil = true
@@ -1186,6 +1213,10 @@ func (c *Ctx) pkgoDispatch(si *siteInfo, rule string) {
 		ok := (nodeKind == "SelectorExpr" || nodeKind == "Ident") && objKind == want
 		if si.S.Code == "PKGO03" && !recvNonNil {
 			ok = false
+		}
+		if si.S.Code == "PKGO01" && ok && unresolvedPkgTest {
+			okAll = false
+			c.fail(rule+"/ALIAS-RESOLVED", si.Name, where, "the own-package test is made on the object of the identifier as written, before aliases are resolved: a restricted type used through a local alias (`type A = restricted.T`) is taken for a type of the using package (C13)")
 		}
 		if si.S.Code == "PKGO01" && ok && !aliasResolved {
 			okAll = false
